@@ -293,3 +293,117 @@ Example ex_img_tree_roundtrip :
   | _ => False
   end.
 Proof. exact ex_tree_roundtrip. Qed.
+
+(* ---- 5. from the packer's add calls to the serializer's input and on to the reader's view (coq/ImgPost) ---- *)
+(* Section 4 takes the post-processed tree as given.  Here it is produced by the model of lib/fstree (coq/C11: [fs_add] =
+   fstree_add_generic with implicit directories and sorted insertion, [post_process] = fstree_post_process: hard link
+   resolution, alloc_inode_num_dfs, reorder_hard_links, file list) and handed over by [ImgPost.Bridge.to_img], which reads
+   from it exactly what serialize_fstree.c reads from fs->inodes[] / tree_node_t (inode number = position + 1, children in
+   list order, a hard link entry carries its target_node's number, link counts after resolution, parent numbers); the file
+   inodes the block processor leaves ([fb]) and the xattr indices ([xa]) stay abstract as in section 4.
+   [input_okb] (InputOk.v) lists every bound on the INPUT that [representable] needs and lib/fstree does not establish:
+   block size <> 0; fstree defaults and per add: permission bits < 2^12, uid, gid < 2^32, path components that are C strings
+   of 1..65536 bytes, symlink targets byte strings < 2^32, device numbers < 2^32; #adds + #path components + 3 < 2^32 (the
+   C code's own "Too many inodes" / EMLINK refusals are not modelled).  [attached_okb]: every file of fs->files got an inode
+   meeting file_body_okb, every xattr index is 32 bit.  Everything else is PROVED of the fstree model — see
+   post_tree_structure, which needs no bound at all. *)
+From SqfsV Require C11.StrOrder C11.FstreeModel C11.PostModel.
+From SqfsV Require Import ImgPost.Bridge ImgPost.InputOk ImgPost.PathsModel ImgPost.AllocInv ImgPost.BridgeProofs
+  ImgPost.PathsProofs ImgPost.Structure ImgPost.RoundTrip ImgPost.Example.
+
+(* what lib/fstree guarantees for EVERY sequence of successful adds and every successful fstree_post_process, without any
+   bound: fs->inodes holds every node that gets a number (every node that is not a hard link entry) exactly once, the root
+   last and a directory — so the inode numbers are exactly 1..N; in every directory the entry names are strictly sorted in
+   strcmp order (hence distinct); every entry — a child, or the target_node of a hard link entry — is numbered before the
+   directory that names it (alloc_inode_num_dfs + reorder_hard_links); link counts are >= 1 *)
+Theorem post_tree_structure : forall d ops fs pp fb xa,
+  run_adds d (FstreeModel.fs_init d) ops = Some fs ->
+  PostModel.post_process fs = PostModel.POk pp ->
+  let arr := PostModel.pp_inodes pp in
+  let t := to_img fb xa pp in
+  NoDup arr /\
+  (forall p, In p arr <-> numbered (PostModel.pp_root pp) p) /\
+  nth_error arr (length arr - 1) = Some [] /\
+  length t = length arr /\
+  (exists n par ch, nth_error t (length arr - 1) = Some n /\ fn_payload n = PDir par ch) /\
+  forall j n, nth_error t j = Some n ->
+    1 <= fn_nlink n /\
+    forall par ch, fn_payload n = PDir par ch ->
+      sorted_names (map fst ch) = true /\
+      Forall (fun e => 1 <= snd e /\ snd e < N.of_nat j + 1) ch.
+Proof. exact post_tree_structure_l. Qed.
+Print Assumptions post_tree_structure.
+
+(* post_tree_representable: under the input bounds the tree handed to sqfs_serialize_fstree is in the domain of the theorems
+   of section 4 *)
+Theorem post_tree_representable : forall bs d ops fs pp fb xa,
+  input_okb bs d ops = true ->
+  run_adds d (FstreeModel.fs_init d) ops = Some fs ->
+  PostModel.post_process fs = PostModel.POk pp ->
+  attached_okb bs fb xa pp = true ->
+  representable bs (to_img fb xa pp) = true.
+Proof. exact post_tree_representable_l. Qed.
+Print Assumptions post_tree_representable.
+
+(* pack_paths_roundtrip (C01 at the metadata level, from the add calls to the reader): the tree read back from the tables,
+   flattened in directory order to  path |-> (type + permission bits, uid, gid, mtime, xattr index, symlink target / device
+   number / file location, size and block list), inode number,  is the flattening [fl] of the tree the adds built BEFORE
+   post-processing ([denotes]: all its paths depth first in child order, a hard link path carrying the attributes of the
+   node its target resolves to through further hard links; [denotes_flattening_unique]: there is exactly one such list)
+   with every denoted node replaced by its inode number — and that numbering is injective on the denoted nodes, so two
+   paths carry the same inode number iff they denote the same node: the hard-link groups agree. *)
+Theorem pack_paths_roundtrip : forall compress uncompress, meta_contract compress uncompress ->
+  forall limit, limit <= 65536 ->
+  forall bs d ops fs pp fb xa img,
+  input_okb bs d ops = true ->
+  run_adds d (FstreeModel.fs_init d) ops = Some fs ->
+  PostModel.post_process fs = PostModel.POk pp ->
+  attached_okb bs fb xa pp = true ->
+  serialize_fstree compress limit (to_img fb xa pp) = Ok img ->
+  trace_fits img = true ->
+  exists lt fl,
+    read_tree uncompress bs (si_itbl img) (si_dtbl img) (si_ids img) (length (PostModel.pp_inodes pp)) (si_root img) = Some lt /\
+    denotes fb xa (FstreeModel.fs_root fs) fl /\
+    flat_lt [] lt = map (number (PostModel.pp_inodes pp)) fl /\
+    (forall x y, In x fl -> In y fl ->
+       ino_of (PostModel.pp_inodes pp) (snd x) = ino_of (PostModel.pp_inodes pp) (snd y) -> snd x = snd y).
+Proof. exact pack_paths_roundtrip_l. Qed.
+Print Assumptions pack_paths_roundtrip.
+
+Theorem denotes_flattening_unique : forall fb xa root fl fl',
+  denotes fb xa root fl -> denotes fb xa root fl' -> fl = fl'.
+Proof. exact denotes_unique. Qed.
+Print Assumptions denotes_flattening_unique.
+
+(* non-vacuity: ten adds with implicit directories later made explicit, child-before-parent order, a hard link chain defined
+   before its target, two more links to the same file, a link to a device, a link that makes reorder_hard_links move its
+   target; the hypotheses hold, the conclusions compute *)
+Example ex_post_tree_representable :
+  input_okb 4096 exp_defaults exp_ops = true /\
+  match exp_pp with
+  | Some pp =>
+      attached_okb 4096 exp_fb exp_xa pp = true /\
+      representable 4096 (to_img exp_fb exp_xa pp) = true /\
+      PostModel.pp_inodes pp = [[n_d; n_sub; n_f]; [n_d; n_sub; n_p]; [n_s]; [n_d; n_sub]; [n_d]; [n_dev]; []] /\
+      PostModel.alloc_list [] (PostModel.pp_root pp) = [[n_d; n_sub; n_f]; [n_d; n_sub; n_p]; [n_d; n_sub]; [n_d]; [n_dev]; [n_s]] /\
+      map (fun n => (fn_mode n, fn_uid n, fn_mtime n, fn_nlink n)) (to_img exp_fb exp_xa pp) =
+        [(33188, 1000, 1600000000, 4); (4516, 0, 2, 1); (41471, 5, 0, 2); (16877, 0, 1600000000, 5);
+         (16832, 1, 5, 4); (8576, 0, 1, 2); (16877, 0, 1600000000, 8)]
+  | None => False
+  end.
+Proof. exact ex_pack_representable. Qed.
+Example ex_pack_paths :
+  match exp_read with
+  | Some (fits, lt, pp) =>
+      fits = true /\
+      flat_lt [] lt = map (number (PostModel.pp_inodes pp))
+                          (flat_pp exp_fb exp_xa (PostModel.pp_root pp) (PostModel.pp_inodes pp) [] (PostModel.pp_root pp)) /\
+      map (fun x => (fst (fst x), snd x)) (flat_lt [] lt) =
+        [([], 7); ([n_B], 6); ([n_a], 1); ([n_d], 5); ([n_d; n_l2], 1); ([n_d; n_sub], 4); ([n_d; n_sub; n_f], 1);
+         ([n_d; n_sub; n_k], 3); ([n_d; n_sub; n_p], 2); ([n_dev], 6); ([n_s], 3); ([n_z], 1)] /\
+      group_of N.eqb (flat_lt [] lt) 1 = [[n_a]; [n_d; n_l2]; [n_d; n_sub; n_f]; [n_z]] /\
+      map (fun x => snd (fst x)) (filter (fun x => PostModel.path_eqb (fst (fst x)) [n_d; n_l2]) (flat_lt [] lt)) =
+        [mkPv 33188 (Some 1000) (Some 100) 1600000000 NOX (LFile 96 5000 0 NOX NOX [4096; 904])]
+  | None => False
+  end.
+Proof. exact ex_pack_paths_roundtrip. Qed.
